@@ -87,6 +87,20 @@ def gen_cases(ctx, n):
                     A._member(r, b"", b"after.txt", data=b"after", level=r.choice([0, 1, 2])) + b"\0"
                 for toks in (["n", "x0", "n", "x1", "n", "n"], ["n", "x0", "n", "n", "x1", "n"], ["n", "x0"]):
                     out.append(Case(A.rdr_op(kind_, pol, toks, d), judge=judge, tags={"lib", "placeholder-fails"}))
+    # fixed: members whose extraction path is EMPTY after the tool strips leading separators (a name that is just "/" or "\\", a path
+    # header that is just 0xff; as a file and as a directory entry), really extracted – also flattened and below w=DIR
+    from vlib import lhaenc as E8
+    empties = []
+    for meth in (b"-lh0-", b"-lhd-"):
+        for lvl, nm in ((0, b"/"), (1, b"\\"), (1, b"//"), (0, b"\\\\")):
+            empties.append(E8.encode(E8.Fields(level=lvl, method=meth, clen=0, length=0, crc=0, name=nm, os_type=0x55)))
+        empties.append(E8.encode(E8.Fields(level=2, method=meth, clen=0, length=0, crc=0, os_type=0x55, time=1000000000, exts=[(E8.EXT_PATH, b"\xff")])))
+        empties.append(E8.encode(E8.Fields(level=2, method=meth, clen=0, length=0, crc=0, os_type=0x55, time=1000000000,
+                                           exts=[(E8.EXT_PATH, b"\xff\xff"), (E8.EXT_FILENAME, b"")] if meth == b"-lhd-" else [(E8.EXT_PATH, b"\xff"), (E8.EXT_FILENAME, b"x")])))
+    tailm = A._member(r, b"", b"hello.txt", data=b"hello", level=1)
+    for em in empties:
+        for mode in ("xqf", "xf", "eq", "xqfi", "xfw=d"):
+            out.append(Case("cli %s file %s" % (mode, (em + tailm + b"\0").hex()), judge=judge, tags={"cli", "mode=" + mode, "empty-extraction-path"}))
     # header-level perturbations (every single-byte substitution at the length/level bytes, every truncation,
     # extended-header size perturbations) of a few generated headers: the parser alone, and through the reader
     import props.C12 as C12
